@@ -86,6 +86,15 @@ FAMILIES = {
     "Compat": fam("MC_Compat",
                   quick=[ex(2), chain(3, hops=0), sim(1500, 6, design=False, NSlots="= 3")],
                   thorough=[ex(3), chain(4, hops=0), sim(30000, 8, design=False, NSlots="= 3")]),
+    "Concurrent": dict(module="MC_Concurrent", spec="CSpec", race=True,
+                       constants=dict(BASE, NSlots="= 2", COps="<- COpsQuick", Storm="= 16", BuildD="= 4"),
+                       invariants=["Emit"],
+                       tiers=dict(
+                           quick=dict(runs=[dict(constants={"MaxD": "= 20"},
+                                                 simulate=dict(num=160, depth=24), invariants=["Emit"])]),
+                           thorough=dict(runs=[
+                               dict(constants={"MaxD": "= 20", "COps": "<- COpsAll", "Storm": "= 64", "BuildD": "= 5"},
+                                    simulate=dict(num=3000, depth=24), invariants=["Emit"])]))),
     "Unknown": fam("MC_Unknown",
                    quick=[chain(4, hops=2), sim(1000, 5, design=False, NSlots="= 2")],
                    thorough=[chain(4, hops=2), sim(20000, 7, NSlots="= 3")]),
@@ -111,6 +120,12 @@ GEN = ("behaviours are generated by TLC from the family's bounded configuration 
        "specification; distinct = distinct step sequences; non-trivial = contains ")
 
 PROPS = {
+    "C18": prop(["Concurrent"], "TLC generates a value (random constructor walk, possibly with a hop) and then an interleaving of "
+                                "Begin / End steps of three goroutines running observer operations on it, followed by a storm of "
+                                "16 (quick) or 64 (thorough) goroutines cycling through all twelve operations; every goroutine "
+                                "repeats its operation between its Begin and End; the harness is built with -race; distinct = "
+                                "distinct step sequences; non-trivial = all (each has overlapping observers)",
+                ["CBegin"], level="exploration"),
     "C14": prop(["Compat"], GEN + "a comparison of the library's Is / As / Unwrap / Cause with the standard library's and "
                             "pkg/errors' on the same value (all do)", None),
     "C20": prop(["Grpc"], GEN + "a call through the gRPC interceptors", ["Grpc"]),
@@ -218,6 +233,13 @@ CLAIMS = {
                  "recorded sides (implication for Is, same first match and value for As, agreement of Unwrap where the layer "
                  "exposes Unwrap, same root as pkg Cause where every layer exposes Cause) and, from the model, that the "
                  "standard library recognises every node of a value it can reach", "DESIGN 8 C14"),
+    "C18": claim("the specification's Concurrent part states that observer steps never change the shared values and fixes the "
+                 "overlap shape (which Begin / End steps interleave); the Go harness realises each shape with real goroutines "
+                 "that repeat their operation from Begin to End and compares every result with the operation's result "
+                 "executed alone; data races are decided by the Go race detector under which the harness runs (reports "
+                 "counted per step and validated to be zero by the trace specification). Schedules inside a call are the Go "
+                 "scheduler's: exploration, not exhaustive", "DESIGN 8 C18",
+                 "TLA+ overlap shapes replayed with real goroutines under the Go race detector + TLC trace validation"),
     "C17": claim("the specification models processes with their own rename registries (RegisterTypeMigration transcribed, "
                  "incl. forwarding) and linked types; TLC checks on the model that every lineage type is encoded under the "
                  "original name and that equal lineage errors are identified in every process, for every version assignment and "
